@@ -40,6 +40,9 @@ func NewVectorId(distributions ...VectorPdf) (*VectorId, error) {
   d := make([]VectorPdf, len(distributions))
   t := NewScalar(distributions[0].ScalarType(), 0.0)
   for i := 0; i < len(distributions); i++ {
+    if distributions[i].Dim() != distributions[0].Dim() {
+      return nil, fmt.Errorf("error while creating a vector id distribution: rows have different dimensions")
+    }
     d[i] = distributions[i].CloneVectorPdf()
   }
   return &VectorId{d, t}, nil
